@@ -676,4 +676,22 @@ theorem reach_sorted {cfg : Config} {s : State} {tr : List Ev} (h : Reach cfg s 
   | init => simp [init, Sorted]
   | step hr hs ih => exact sorted_step (reach_inv hr) ih hs
 
+/-- a turn of several blocks stays within the reachable states: every theorem about reachable states holds after it -/
+theorem turn_reach {cfg : Config} {s0 : State} : ∀ (ops : List Op) {s s' : State} {tr es : List Ev}, Reach cfg s tr →
+    turn cfg s0 s ops = some (s', es) → Reach cfg s' (tr ++ es)
+  | [], s, s', tr, es, hr, h => by simp [turn] at h; obtain ⟨rfl, rfl⟩ := h; simpa using hr
+  | op :: ops, s, s', tr, es, hr, h => by
+    simp only [turn] at h
+    split at h
+    · simp at h
+    · split at h
+      · simp at h
+      · next s1 e1 h1 =>
+        split at h
+        · simp at h
+        · next s2 es2 h2 =>
+          simp at h; obtain ⟨rfl, rfl⟩ := h
+          have := turn_reach ops (Reach.step hr h1) h2
+          simpa [List.append_assoc] using this
+
 end HailVerif.Cache
